@@ -22,6 +22,7 @@ import (
 	"github.com/pdfcpu/pdfcpu/pkg/pdfcpu"
 	"github.com/pdfcpu/pdfcpu/pkg/pdfcpu/model"
 	"verif/core"
+	"verif/pdfgen"
 )
 
 // B is the statement-level bound for "promptly": work units (ReadSeeker calls, further polls) the
@@ -69,11 +70,19 @@ type simCtx struct {
 	siteCount  map[string]int
 	flipSite   pollSite
 	seenAt     time.Time
+	reason     error // what Err() reports once the context has ended: Canceled, or DeadlineExceeded (its simulated deadline passes at the flip)
 }
 
-func newSimCtx() *simCtx { return &simCtx{done: make(chan struct{}), siteCount: map[string]int{}} }
+func newSimCtx() *simCtx {
+	return &simCtx{done: make(chan struct{}), siteCount: map[string]int{}, reason: context.Canceled}
+}
 
-func (c *simCtx) Deadline() (time.Time, bool) { return time.Time{}, false }
+func (c *simCtx) Deadline() (time.Time, bool) {
+	if c.reason == context.DeadlineExceeded {
+		return time.Unix(4102444800, 0), true // the simulated clock jumps past it at the flip
+	}
+	return time.Time{}, false
+}
 func (c *simCtx) Value(any) any               { return nil }
 
 func (c *simCtx) cancel() {
@@ -113,7 +122,7 @@ func (c *simCtx) poll() {
 func (c *simCtx) Err() error {
 	c.poll()
 	if c.cancelled {
-		return context.Canceled
+		return c.reason
 	}
 	return nil
 }
@@ -140,12 +149,27 @@ type countRS struct {
 	lastSeek   int64
 	flipAtRead int
 	ctx        *simCtx
+	// a Read call is addressed by (offset of the last Seek, occurrence of that Seek offset, Reads since):
+	// the call number is not stable across runs (objects are dereferenced in map order), the triple is
+	seekOcc    map[int64]int
+	sinceSeek  int
+	matchIO    *ioSite
+	flipIO     ioSite
+}
+
+type ioSite struct {
+	Seek int64 `json:"last_seek"`
+	Occ  int   `json:"seek_occurrence"`
+	J    int   `json:"reads_since"`
 }
 
 func (c *countRS) Read(p []byte) (int, error) {
 	c.calls++
 	c.reads++
-	if c.flipAtRead > 0 && c.reads == c.flipAtRead {
+	c.sinceSeek++
+	here := ioSite{Seek: c.lastSeek, Occ: c.seekOcc[c.lastSeek], J: c.sinceSeek}
+	if (c.flipAtRead > 0 && c.reads == c.flipAtRead) || (c.matchIO != nil && *c.matchIO == here) {
+		c.flipIO = here
 		c.ctx.cancel() // "another goroutine" cancels while the reader is inside this Read
 	}
 	n, err := c.r.Read(p)
@@ -158,6 +182,11 @@ func (c *countRS) Seek(off int64, whence int) (int64, error) {
 	n, err := c.r.Seek(off, whence)
 	if err == nil {
 		c.lastSeek = n
+		if c.seekOcc == nil {
+			c.seekOcc = map[int64]int{}
+		}
+		c.seekOcc[n]++
+		c.sinceSeek = 0
 	}
 	return n, err
 }
@@ -166,7 +195,7 @@ func (c *countRS) Seek(off int64, whence int) (int64, error) {
 
 type docSpec struct {
 	Name   string `json:"name"`
-	Mutate string `json:"mutate,omitempty"` // "" | "bad-startxref" (forces the xref repair path)
+	Mutate string `json:"mutate,omitempty"` // "" | "bad-startxref" (forces the xref repair path) | "bad-objoffset" (forces the dereference-time repair)
 }
 
 var docCache = map[string][]byte{}
@@ -176,11 +205,23 @@ func loadDoc(d docSpec) ([]byte, error) {
 	if b, ok := docCache[key]; ok {
 		return b, nil
 	}
-	b, err := os.ReadFile(filepath.Join("/repo/pkg/testdata", d.Name))
-	if err != nil {
-		return nil, err
+	var b []byte
+	if strings.HasPrefix(d.Name, "gen:") {
+		// a document from the harness's own writer (classic xref table), n pages
+		n := 0
+		fmt.Sscanf(d.Name, "gen:%d", &n)
+		var pages []pdfgen.PageSpec
+		for i := 0; i < n; i++ {
+			pages = append(pages, pdfgen.PageSpec{Marker: fmt.Sprintf("page-%d", i+1)})
+		}
+		b = pdfgen.Doc(pages, 5, []int{0, 90}, [][4]float64{{0, 0, 595, 842}, {0, 0, 300, 400}})
+	} else {
+		rb, err := os.ReadFile(filepath.Join("/repo/pkg/testdata", d.Name))
+		if err != nil {
+			return nil, err
+		}
+		b = append([]byte(nil), rb...)
 	}
-	b = append([]byte(nil), b...)
 	switch d.Mutate {
 	case "bad-startxref":
 		// point startxref 7 bytes off: the reader has to rebuild the xref table by scanning the file
@@ -200,9 +241,56 @@ func loadDoc(d docSpec) ([]byte, error) {
 		fmt.Sscanf(string(b[j:k]), "%d", &off)
 		repl := fmt.Sprintf("%0*d", k-j, off+7)
 		copy(b[j:k], repl)
+	case "bad-objoffset":
+		// one in-use entry of the classic xref table points a few bytes short of its object: the first
+		// dereference pass fails and the reader repairs by scanning the file
+		if err := corruptOneOffset(b); err != nil {
+			return nil, fmt.Errorf("%s: %v", d.Name, err)
+		}
 	}
 	docCache[key] = b
 	return b, nil
+}
+
+// corruptOneOffset rewrites the offset of an in-use entry in the last classic xref section.
+func corruptOneOffset(b []byte) error {
+	i := bytes.LastIndex(b, []byte("\nxref"))
+	if i < 0 {
+		return fmt.Errorf("no classic xref section")
+	}
+	p := i + len("\nxref")
+	var entries []int // byte positions of 20-byte in-use entries
+	for p < len(b) {
+		for p < len(b) && (b[p] == '\r' || b[p] == '\n' || b[p] == ' ') {
+			p++
+		}
+		if bytes.HasPrefix(b[p:], []byte("trailer")) {
+			break
+		}
+		// either a subsection header "first count" or an entry "oooooooooo ggggg n"
+		e := p
+		for e < len(b) && b[e] != '\r' && b[e] != '\n' {
+			e++
+		}
+		line := strings.TrimSpace(string(b[p:e]))
+		if len(line) == 18 && line[10] == ' ' && (line[17] == 'n' || line[17] == 'f') {
+			if line[17] == 'n' {
+				entries = append(entries, p)
+			}
+		}
+		p = e
+	}
+	if len(entries) < 3 {
+		return fmt.Errorf("xref section has too few in-use entries")
+	}
+	at := entries[len(entries)/2]
+	var off int
+	fmt.Sscanf(string(b[at:at+10]), "%d", &off)
+	if off < 8 {
+		return fmt.Errorf("offset too small")
+	}
+	copy(b[at:at+10], fmt.Sprintf("%010d", off-4))
+	return nil
 }
 
 type readOutcome struct {
@@ -215,6 +303,7 @@ type readOutcome struct {
 	pollsAfter int
 	callsAfter int
 	flipSite   pollSite
+	flipIO     ioSite
 	latency    time.Duration
 	panicVal   any
 }
@@ -225,9 +314,21 @@ func conf() *model.Configuration {
 	return c
 }
 
-func doRead(b []byte, flipAtPoll, flipAtRead int, match *pollSite) (out readOutcome) {
+func reasonOf(name string) error {
+	if name == "deadline" {
+		return context.DeadlineExceeded
+	}
+	return context.Canceled
+}
+
+func doRead(b []byte, flipAtPoll, flipAtRead int, match *pollSite, reason string) (out readOutcome) {
+	return doReadIO(b, flipAtPoll, flipAtRead, match, nil, reason)
+}
+
+func doReadIO(b []byte, flipAtPoll, flipAtRead int, match *pollSite, matchIO *ioSite, reason string) (out readOutcome) {
 	sc := newSimCtx()
-	rs := &countRS{r: bytes.NewReader(b), ctx: sc, flipAtRead: flipAtRead}
+	sc.reason = reasonOf(reason)
+	rs := &countRS{r: bytes.NewReader(b), ctx: sc, flipAtRead: flipAtRead, matchIO: matchIO, seekOcc: map[int64]int{}}
 	sc.rs = rs
 	sc.flipAtPoll = flipAtPoll
 	sc.match = match
@@ -243,6 +344,7 @@ func doRead(b []byte, flipAtPoll, flipAtRead int, match *pollSite) (out readOutc
 	out.polls, out.calls, out.bytes = sc.polls, rs.calls, rs.bytes
 	out.seen = sc.firstSeen
 	out.flipSite = sc.flipSite
+	out.flipIO = rs.flipIO
 	if sc.firstSeen {
 		out.pollsAfter = sc.pollsAfter
 		out.callsAfter = rs.calls - sc.readsAtSeen
@@ -263,14 +365,17 @@ type C10Unit struct {
 type C10Replay struct {
 	Doc        docSpec   `json:"doc"`
 	Mode       string    `json:"mode"` // poll | io | pre-cancel | pre-deadline | pre-sim
+	Reason     string    `json:"reason,omitempty"` // "" = cancelled, "deadline" = the simulated deadline passes
 	K          int       `json:"k_hint,omitempty"`
 	Site       *pollSite `json:"poll_site,omitempty"`
 	N          int       `json:"io_call,omitempty"`
+	IOSite     *ioSite   `json:"io_site,omitempty"`
 }
 
 var quickDocs = []docSpec{
 	{Name: "zineTest.pdf"}, {Name: "Acroforms2.pdf"}, {Name: "Hybrid-PDF.pdf"}, {Name: "Walden.pdf"},
 	{Name: "zineTest.pdf", Mutate: "bad-startxref"}, {Name: "annotTest.pdf"},
+	{Name: "gen:40", Mutate: "bad-objoffset"}, {Name: "grid_example.pdf", Mutate: "bad-objoffset"},
 }
 
 var thoroughDocs = []docSpec{
@@ -278,6 +383,7 @@ var thoroughDocs = []docSpec{
 	{Name: "adobe_errata.pdf"}, {Name: "go.pdf"}, {Name: "testImage.pdf"}, {Name: "schmager_plateau10.pdf"}, {Name: "pike-stanford.pdf"},
 	{Name: "Acroforms2.pdf", Mutate: "bad-startxref"}, {Name: "Walden.pdf", Mutate: "bad-startxref"}, {Name: "5116.DCT_Filter.pdf"},
 	{Name: "adobeImplOfPDFSpec.pdf"}, {Name: "golang.pdf"},
+	{Name: "gen:40"}, {Name: "gen:120", Mutate: "bad-objoffset"}, {Name: "read.go.pdf", Mutate: "bad-objoffset"}, {Name: "text_annotations.pdf", Mutate: "bad-objoffset"},
 }
 
 func (c10) Units(tier string, seed int64) ([]core.Unit, error) {
@@ -309,7 +415,7 @@ func judge(doc docSpec, mode string, k int, full, out readOutcome, rp C10Replay)
 	var vs []core.Violation
 	mk := func(class, tail, detail string) {
 		b, _ := json.Marshal(rp)
-		sig := fmt.Sprintf("%s|%s|%s|%s|%s", doc.Name, doc.Mutate, mode, class, tail)
+		sig := fmt.Sprintf("%s|%s|%s|%s|%s", doc.Name, doc.Mutate, mode+map[bool]string{true: "-" + rp.Reason, false: ""}[rp.Reason != ""], class, tail)
 		d := fmt.Sprintf("document %s%s, cancellation %s (k=%d, io=%d), first seen at poll site %s (last seek %d, occurrence %d)\nresult: err=%v doc=%v; after the cancellation was seen: %d ReadSeeker calls, %d polls (full read: %d calls, %d polls)\n%s",
 			doc.Name, map[bool]string{true: " [" + doc.Mutate + "]", false: ""}[doc.Mutate != ""], mode, k, rp.N, out.flipSite.Site, out.flipSite.Seek, out.flipSite.J, out.err, out.ctx != nil, out.callsAfter, out.pollsAfter, full.calls, full.polls, detail)
 		vs = append(vs, core.Violation{Property: "C10", Class: class, Signature: sig, Detail: d, Replay: b})
@@ -322,9 +428,9 @@ func judge(doc docSpec, mode string, k int, full, out readOutcome, rp C10Replay)
 		mk("document-and-error", "", "a document and an error were returned together")
 	}
 	if out.err != nil {
-		if !errors.Is(out.err, context.Canceled) {
+		if !errors.Is(out.err, reasonOf(rp.Reason)) {
 			if out.seen {
-				mk("wrong-error", siteFunc(out.flipSite.Site), "the read was cancelled but the error does not match the context's error")
+				mk("wrong-error", siteFunc(out.flipSite.Site), fmt.Sprintf("the read was cancelled but the error does not match the context's error (%v)", reasonOf(rp.Reason)))
 			} else if full.err == nil {
 				mk("spurious-error", "", "the read failed although the cancellation was never observed and the uncancelled read succeeds")
 			}
@@ -363,7 +469,7 @@ func (c10) RunUnit(raw core.Unit, tier string, seed int64) core.UnitResult {
 		return res
 	}
 	rng := rand.New(rand.NewPCG(uint64(u.Seed), 10))
-	full := doRead(b, 0, 0, nil)
+	full := doRead(b, 0, 0, nil, "")
 	res.Evaluations++
 	if full.err != nil || full.panicVal != nil {
 		res.Trouble = fmt.Sprintf("uncancelled read of %s%s fails: %v %v", u.Doc.Name, u.Doc.Mutate, full.err, full.panicVal)
@@ -376,14 +482,27 @@ func (c10) RunUnit(raw core.Unit, tier string, seed int64) core.UnitResult {
 	res.EventsSeen["polls_full_read"] += full.polls
 	res.EventsSeen["readseeker_calls_full_read"] += full.calls
 	if u.Doc.Mutate != "" {
-		res.Probes["xref_repair_path_documents"]++
+		// the mutation must really send the reader through a repair scan: more work than the intact file
+		ob, err := loadDoc(docSpec{Name: u.Doc.Name})
+		if err != nil {
+			res.Trouble = err.Error()
+			return res
+		}
+		intact := doRead(ob, 0, 0, nil, "")
+		if full.polls <= intact.polls && full.bytes <= intact.bytes {
+			res.Trouble = fmt.Sprintf("%s [%s]: the mutated file is read with no more work than the intact one (%d/%d polls, %d/%d bytes): no repair path taken", u.Doc.Name, u.Doc.Mutate, full.polls, intact.polls, full.bytes, intact.bytes)
+			return res
+		}
+		res.Probes["repair_path_documents_"+u.Doc.Mutate]++
+		res.Probes["repair_path_extra_polls"] += full.polls - intact.polls
 	}
 	maxAfterCalls, maxAfterPolls := 0, 0
+	worst := ""
 	var maxLatency time.Duration
 	record := func(mode string, k int, out readOutcome, rp C10Replay) {
 		res.Evaluations++
 		res.SimSteps += out.calls + out.polls
-		res.FaultFired["cancel-"+mode]++
+		res.FaultFired["cancel-"+mode+map[bool]string{true: "-" + rp.Reason, false: ""}[rp.Reason != ""]]++
 		if out.seen {
 			res.Nontrivial = append(res.Nontrivial, fmt.Sprintf("%s|%s|%s|%d", u.Doc.Name, u.Doc.Mutate, mode, k))
 			if out.err != nil {
@@ -397,6 +516,7 @@ func (c10) RunUnit(raw core.Unit, tier string, seed int64) core.UnitResult {
 		}
 		if out.pollsAfter > maxAfterPolls {
 			maxAfterPolls = out.pollsAfter
+			worst = fmt.Sprintf("%s k=%d first seen at %s (seek %d, occurrence %d): %d polls, %d calls afterwards, err=%v", mode, k, out.flipSite.Site, out.flipSite.Seek, out.flipSite.J, out.pollsAfter, out.callsAfter, out.err)
 		}
 		if out.latency > maxLatency {
 			maxLatency = out.latency
@@ -443,21 +563,25 @@ func (c10) RunUnit(raw core.Unit, tier string, seed int64) core.UnitResult {
 		ks = keep
 		sort.Ints(ks)
 	}
-	for _, k := range ks {
-		out := doRead(b, k, 0, nil)
-		site := out.flipSite
-		record("poll", k, out, C10Replay{Doc: u.Doc, Mode: "poll", K: k, Site: &site})
+	for _, reason := range []string{"", "deadline"} {
+		for _, k := range ks {
+			out := doRead(b, k, 0, nil, reason)
+			site := out.flipSite
+			record("poll", k, out, C10Replay{Doc: u.Doc, Mode: "poll", K: k, Site: &site, Reason: reason})
+		}
 	}
 	// cancellation while the reader is inside the n-th Read
 	for i := 0; i < u.IO; i++ {
 		n := 1 + rng.IntN(full.calls)
-		out := doRead(b, 0, n, nil)
-		record("io", n, out, C10Replay{Doc: u.Doc, Mode: "io", N: n})
+		reason := []string{"", "deadline"}[i%2]
+		out := doRead(b, 0, n, nil, reason)
+		at := out.flipIO
+		record("io", n, out, C10Replay{Doc: u.Doc, Mode: "io", N: n, IOSite: &at, Reason: reason})
 	}
 	res.Probes["max_readseeker_calls_after_cancel_seen"] = maxAfterCalls
 	res.Probes["max_polls_after_cancel_seen"] = maxAfterPolls
 	res.Probes["max_latency_us_after_cancel_seen"] = int(maxLatency / time.Microsecond)
-	res.Samples = append(res.Samples, map[string]any{"document": u.Doc, "polls_in_full_read": full.polls, "readseeker_calls_in_full_read": full.calls, "poll_points_tried": len(ks), "io_points_tried": u.IO, "max_calls_after_cancel_seen": maxAfterCalls, "max_polls_after_cancel_seen": maxAfterPolls})
+	res.Samples = append(res.Samples, map[string]any{"document": u.Doc, "polls_in_full_read": full.polls, "readseeker_calls_in_full_read": full.calls, "poll_points_tried": len(ks), "io_points_tried": u.IO, "max_calls_after_cancel_seen": maxAfterCalls, "max_polls_after_cancel_seen": maxAfterPolls, "worst_case": worst})
 	return res
 }
 
@@ -476,7 +600,7 @@ func (c10) Replay(payload json.RawMessage) ([]core.Violation, error) {
 	if err != nil {
 		return nil, err
 	}
-	full := doRead(b, 0, 0, nil)
+	full := doRead(b, 0, 0, nil, "")
 	switch rp.Mode {
 	case "pre-cancel", "pre-deadline":
 		var cctx context.Context
@@ -498,22 +622,51 @@ func (c10) Replay(payload json.RawMessage) ([]core.Violation, error) {
 		}
 		return nil, nil
 	case "io":
-		out := doRead(b, 0, rp.N, nil)
-		return judge(rp.Doc, "io", rp.N, full, out, rp), nil
+		if rp.IOSite == nil {
+			out := doRead(b, 0, rp.N, nil, rp.Reason)
+			return judge(rp.Doc, "io", rp.N, full, out, rp), nil
+		}
+		// Which code path reaches this Read call depends on the order in which objects are dereferenced
+		// (Go map iteration, not seedable): the replay re-runs until the violation shows or 60 runs passed it.
+		reached := 0
+		for attempt := 0; attempt < 60; attempt++ {
+			out := doReadIO(b, 0, 0, nil, rp.IOSite, rp.Reason)
+			if out.flipIO != *rp.IOSite {
+				continue // this run's dereference order did not pass the Read call
+			}
+			reached++
+			if vs := judge(rp.Doc, "io", rp.N, full, out, rp); len(vs) > 0 {
+				fmt.Printf("run %d: cancelled inside Read %+v: err=%v, %d calls and %d polls afterwards\n", attempt+1, out.flipIO, out.err, out.callsAfter, out.pollsAfter)
+				return vs, nil
+			}
+		}
+		if reached == 0 {
+			return nil, fmt.Errorf("replay diverged: Read call %+v was not reached in 60 runs", *rp.IOSite)
+		}
+		fmt.Printf("Read call %+v reached in %d of 60 runs, no violation\n", *rp.IOSite, reached)
+		return nil, nil
 	case "poll":
 		if rp.Site == nil {
 			return nil, fmt.Errorf("replay file has no poll site")
 		}
 		// the poll index is not stable across runs (map iteration); the site triple is
-		for attempt := 0; attempt < 20; attempt++ {
-			out := doRead(b, 0, 0, rp.Site)
+		reached := 0
+		for attempt := 0; attempt < 60; attempt++ {
+			out := doRead(b, 0, 0, rp.Site, rp.Reason)
 			if !out.seen {
 				continue
 			}
-			fmt.Printf("cancelled at %+v: err=%v, %d calls and %d polls afterwards\n", out.flipSite, out.err, out.callsAfter, out.pollsAfter)
-			return judge(rp.Doc, "poll", rp.K, full, out, rp), nil
+			reached++
+			if vs := judge(rp.Doc, "poll", rp.K, full, out, rp); len(vs) > 0 {
+				fmt.Printf("run %d: cancelled at %+v: err=%v, %d calls and %d polls afterwards\n", attempt+1, out.flipSite, out.err, out.callsAfter, out.pollsAfter)
+				return vs, nil
+			}
 		}
-		return nil, fmt.Errorf("replay diverged: poll site %+v was not reached in 20 attempts", *rp.Site)
+		if reached == 0 {
+			return nil, fmt.Errorf("replay diverged: poll site %+v was not reached in 60 runs", *rp.Site)
+		}
+		fmt.Printf("poll site %+v reached in %d of 60 runs, no violation\n", *rp.Site, reached)
+		return nil, nil
 	}
 	return nil, fmt.Errorf("unknown mode %q", rp.Mode)
 }
